@@ -4,6 +4,7 @@ import (
 	"go/constant"
 	"go/token"
 	"go/types"
+	"math"
 	"math/bits"
 	"strings"
 
@@ -22,7 +23,11 @@ type intEnv struct {
 	fuel    *int             // shared step budget for helper/loop evaluation
 	stack   int              // helper inlining depth
 	unknown map[ssa.Value]bool
-	closed  bool // every phi that matters has been assigned by the walker
+	closed  bool                          // every phi that matters has been assigned by the walker
+	flens   map[string]int64              // len of a slice-typed struct field loaded through a parameter, by field name
+	cells   map[ssa.Value]int64           // content of an address-valued operand (captured variable)
+	opaque  func(ssa.Value) (int64, bool) // rule-supplied inputs for designated sub-expressions
+	watch   func(ssa.Instruction, intEnv) // called for every instruction of every block the walker executes
 }
 
 func wrapToType(x int64, t types.Type) int64 {
@@ -54,6 +59,11 @@ func evalInt(v ssa.Value, env intEnv, d int) (int64, bool) {
 	if k, ok := env.params[v]; ok {
 		return k, true
 	}
+	if env.opaque != nil {
+		if k, ok := env.opaque(v); ok {
+			return k, true
+		}
+	}
 	switch x := v.(type) {
 	case *ssa.Const:
 		if x.Value != nil && x.Value.Kind() == constant.Bool {
@@ -68,6 +78,17 @@ func evalInt(v ssa.Value, env intEnv, d int) (int64, bool) {
 			if k, ok := env.globals[g.Name()]; ok {
 				return k, true
 			}
+		}
+		if x.Op == token.MUL {
+			if k, ok := env.cells[x.X]; ok {
+				return k, true
+			}
+			if a, ok := x.X.(*ssa.Alloc); ok {
+				if sv := uniqueStore(a); sv != nil && (isIntegerT(sv.Type()) || isBoolT(sv.Type())) {
+					return evalInt(sv, env, d+1)
+				}
+			}
+			return 0, false
 		}
 		switch x.Op {
 		case token.NOT:
@@ -85,6 +106,13 @@ func evalInt(v ssa.Value, env intEnv, d int) (int64, bool) {
 		}
 		return 0, false
 	case *ssa.Convert:
+		if isFloatT(x.X.Type()) {
+			fv, ok := evalFloat(x.X, env, d+1)
+			if !ok || fv != fv || fv > 9e18 || fv < -9e18 {
+				return 0, false
+			}
+			return wrapToType(int64(fv), x.Type()), true
+		}
 		k, ok := evalInt(x.X, env, d+1)
 		if !ok {
 			return 0, false
@@ -197,7 +225,8 @@ func evalInt(v ssa.Value, env intEnv, d int) (int64, bool) {
 			if r, ok := evalBitsCall(sc.String(), x, env, d); ok {
 				return r, true
 			}
-			if rs, ok := evalHelper(sc, x.Call.Args, env, d); ok && len(rs) == 1 {
+			mc, _ := x.Call.Value.(*ssa.MakeClosure)
+			if rs, ok := evalHelperCall(sc, mc, x.Call.Args, env, d); ok && len(rs) == 1 {
 				return rs[0], true
 			}
 		}
@@ -254,6 +283,17 @@ func lenOfValue(v ssa.Value, env intEnv, d int) (int64, bool) {
 		return k, true
 	}
 	switch x := v.(type) {
+	case *ssa.UnOp:
+		if fa, ok := x.X.(*ssa.FieldAddr); ok && x.Op == token.MUL && env.flens != nil {
+			if k, ok := env.flens[fieldName(fa.X.Type(), fa.Field)]; ok {
+				return k, true
+			}
+		}
+		if a, ok := x.X.(*ssa.Alloc); ok && x.Op == token.MUL {
+			if sv := singleStore(a); sv != nil {
+				return lenOfValue(sv, env, d+1)
+			}
+		}
 	case *ssa.ChangeType:
 		return lenOfValue(x.X, env, d+1)
 	case *ssa.Slice:
@@ -285,10 +325,22 @@ func lenOfValue(v ssa.Value, env intEnv, d int) (int64, bool) {
 // from the entry along the branch each (evaluable) condition selects, with a
 // step budget; anything touching memory or an unknown condition gives ok=false.
 func evalHelper(f *ssa.Function, args []ssa.Value, env intEnv, d int) ([]int64, bool) {
-	if f == nil || len(f.Blocks) == 0 || f.Pkg == nil || !strings.HasPrefix(f.Pkg.Pkg.Path(), modPath) || env.stack > 6 || len(args) != len(f.Params) {
+	return evalHelperCall(f, nil, args, env, d)
+}
+
+func inModule(f *ssa.Function) bool {
+	pk := f.Pkg
+	if pk == nil && f.Parent() != nil {
+		pk = f.Parent().Pkg
+	}
+	return pk != nil && strings.HasPrefix(pk.Pkg.Path(), modPath)
+}
+
+func evalHelperCall(f *ssa.Function, closure *ssa.MakeClosure, args []ssa.Value, env intEnv, d int) ([]int64, bool) {
+	if f == nil || len(f.Blocks) == 0 || !inModule(f) || env.stack > 6 || len(args) != len(f.Params) {
 		return nil, false
 	}
-	sub := intEnv{lens: map[ssa.Value]int64{}, params: map[ssa.Value]int64{}, globals: env.globals, fuel: env.fuel, stack: env.stack + 1, closed: true, unknown: map[ssa.Value]bool{}}
+	sub := intEnv{lens: map[ssa.Value]int64{}, params: map[ssa.Value]int64{}, globals: env.globals, fuel: env.fuel, stack: env.stack + 1, closed: true, unknown: map[ssa.Value]bool{}, flens: env.flens, cells: map[ssa.Value]int64{}, opaque: env.opaque}
 	if sub.fuel == nil {
 		n := 20000
 		sub.fuel = &n
@@ -304,6 +356,44 @@ func evalHelper(f *ssa.Function, args []ssa.Value, env intEnv, d int) ([]int64, 
 			sub.lens[p] = n
 		}
 	}
+	if closure != nil {
+		for i, fv := range f.FreeVars {
+			if i >= len(closure.Bindings) {
+				break
+			}
+			b := closure.Bindings[i]
+			if k, ok := env.cells[b]; ok {
+				sub.cells[fv] = k
+				continue
+			}
+			if a, ok := b.(*ssa.Alloc); ok {
+				// a captured variable assigned once (the closure only reads it)
+				var sv ssa.Value
+				n := 0
+				for _, r := range *a.Referrers() {
+					if st, ok := r.(*ssa.Store); ok && st.Addr == ssa.Value(a) {
+						sv = st.Val
+						n++
+					}
+				}
+				if n == 1 && (isIntegerT(sv.Type()) || isBoolT(sv.Type())) && !storesThroughFreeVar(f, fv) {
+					if k, ok := evalInt(sv, env, d+1); ok {
+						sub.cells[fv] = k
+					}
+				}
+			}
+		}
+	}
+	return runFunc(f, sub)
+}
+
+// runFunc follows f from its entry under env and evaluates the results of the
+// return it reaches; results that are not integers are reported as 0.
+func runFunc(f *ssa.Function, sub intEnv) ([]int64, bool) {
+	if sub.fuel == nil {
+		n := 20000
+		sub.fuel = &n
+	}
 	ret := walkBlocks(f.Blocks[0], nil, sub, func(b *ssa.BasicBlock) bool { return false })
 	if ret == nil {
 		return nil, false
@@ -314,6 +404,10 @@ func evalHelper(f *ssa.Function, args []ssa.Value, env intEnv, d int) ([]int64, 
 	}
 	var out []int64
 	for _, rv := range r.Results {
+		if !isIntegerT(rv.Type()) && !isBoolT(rv.Type()) {
+			out = append(out, 0)
+			continue
+		}
 		k, ok := evalInt(rv, sub, 0)
 		if !ok {
 			return nil, false
@@ -321,6 +415,79 @@ func evalHelper(f *ssa.Function, args []ssa.Value, env intEnv, d int) ([]int64, 
 		out = append(out, k)
 	}
 	return out, true
+}
+
+func isFloatT(t types.Type) bool {
+	b, ok := t.Underlying().(*types.Basic)
+	return ok && b.Info()&types.IsFloat != 0
+}
+
+// evalFloat: float64 expressions over converted integers and math.Sqrt /
+// Floor / Ceil / Round / Trunc (IEEE semantics of the host, as compiled code has).
+func evalFloat(v ssa.Value, env intEnv, d int) (float64, bool) {
+	if d > 40 {
+		return 0, false
+	}
+	switch x := v.(type) {
+	case *ssa.Const:
+		if x.Value == nil {
+			return 0, false
+		}
+		f, _ := constant.Float64Val(constant.ToFloat(x.Value))
+		return f, true
+	case *ssa.Convert:
+		if isFloatT(x.X.Type()) {
+			return evalFloat(x.X, env, d+1)
+		}
+		k, ok := evalInt(x.X, env, d+1)
+		if !ok {
+			return 0, false
+		}
+		if isUnsignedT(x.X.Type()) && intBits(x.X.Type()) == 64 {
+			return float64(uint64(k)), true
+		}
+		return float64(k), true
+	case *ssa.ChangeType:
+		return evalFloat(x.X, env, d+1)
+	case *ssa.BinOp:
+		a, ok1 := evalFloat(x.X, env, d+1)
+		b, ok2 := evalFloat(x.Y, env, d+1)
+		if !ok1 || !ok2 {
+			return 0, false
+		}
+		switch x.Op {
+		case token.ADD:
+			return a + b, true
+		case token.SUB:
+			return a - b, true
+		case token.MUL:
+			return a * b, true
+		case token.QUO:
+			return a / b, true
+		}
+	case *ssa.Call:
+		sc := x.Call.StaticCallee()
+		if sc == nil || len(x.Call.Args) != 1 {
+			return 0, false
+		}
+		a, ok := evalFloat(x.Call.Args[0], env, d+1)
+		if !ok {
+			return 0, false
+		}
+		switch sc.String() {
+		case "math.Sqrt":
+			return math.Sqrt(a), true
+		case "math.Floor":
+			return math.Floor(a), true
+		case "math.Ceil":
+			return math.Ceil(a), true
+		case "math.Round":
+			return math.Round(a), true
+		case "math.Trunc":
+			return math.Trunc(a), true
+		}
+	}
+	return 0, false
 }
 
 // walkBlocks follows control flow from block b (entered from pred `from`),
@@ -381,6 +548,11 @@ func walkBlocks(b, from *ssa.BasicBlock, env intEnv, stop func(*ssa.BasicBlock) 
 		}
 		if stop(b) {
 			return b
+		}
+		if env.watch != nil {
+			for _, in := range b.Instrs {
+				env.watch(in, env)
+			}
 		}
 		switch t := b.Instrs[len(b.Instrs)-1].(type) {
 		case *ssa.Return:
@@ -481,4 +653,50 @@ func evalPhi(p *ssa.Phi, env intEnv, d int) (int64, bool) {
 	}
 	k, ok := sub.params[p]
 	return k, ok && !sub.unknown[p]
+}
+
+func storesThroughFreeVar(f *ssa.Function, fv *ssa.FreeVar) bool {
+	if fv.Referrers() == nil {
+		return false
+	}
+	for _, r := range *fv.Referrers() {
+		if st, ok := r.(*ssa.Store); ok && st.Addr == ssa.Value(fv) {
+			return true
+		}
+	}
+	return false
+}
+
+// uniqueStore: the local cell is written exactly once and otherwise only
+// loaded or captured by closures that do not write it.
+func uniqueStore(a *ssa.Alloc) ssa.Value {
+	var sv ssa.Value
+	n := 0
+	for _, r := range *a.Referrers() {
+		switch x := r.(type) {
+		case *ssa.Store:
+			if x.Addr != ssa.Value(a) {
+				return nil
+			}
+			sv = x.Val
+			n++
+		case *ssa.UnOp, *ssa.DebugRef:
+		case *ssa.MakeClosure:
+			fn, ok := x.Fn.(*ssa.Function)
+			if !ok {
+				return nil
+			}
+			for i, b := range x.Bindings {
+				if b == ssa.Value(a) && i < len(fn.FreeVars) && storesThroughFreeVar(fn, fn.FreeVars[i]) {
+					return nil
+				}
+			}
+		default:
+			return nil
+		}
+	}
+	if n == 1 {
+		return sv
+	}
+	return nil
 }
